@@ -40,6 +40,12 @@ const (
 
 var _ authorizer.Authorizer = &MultiClusterSubjectAccessReviewAuthorizer{}
 
+// sarCacheKey identifies the cache of one host of one cluster instance
+type sarCacheKey struct {
+	cluster *clusters.ClusterInfo
+	host    string
+}
+
 type MultiClusterSubjectAccessReviewAuthorizer struct {
 	// allowCacheTTL is the length of time that a successful authorization response will be cached
 	allowCacheTTL time.Duration
@@ -76,14 +82,17 @@ func (a *MultiClusterSubjectAccessReviewAuthorizer) Authorize(ctx context.Contex
 		return a.decisionOnError, "", err
 	}
 
-	c, loaded := a.caches.Load(host)
+	// split cache by cluster and host: a host (server name) can move to another cluster, whose
+	// requests must never be decided from what the previous owner answered
+	cacheKey := sarCacheKey{cluster: cluster, host: host}
+	c, loaded := a.caches.Load(cacheKey)
 	if !loaded {
-		c, loaded = a.caches.LoadOrStore(host, cache.NewLRUExpireCache(8192))
+		c, loaded = a.caches.LoadOrStore(cacheKey, cache.NewLRUExpireCache(8192))
 		// destry cache when cluster stopped
 		if !loaded {
 			go func() {
 				<-cluster.Context().Done()
-				a.caches.Delete(host)
+				a.caches.Delete(cacheKey)
 			}()
 		}
 	}
